@@ -865,8 +865,8 @@ Section NoErrorArm.
 
   Definition PI (ph : phase) (asked : list nat) (m : mstate cstate) : Prop :=
     co_bad (m_sim m) = false /\ (forall j, admb cend n (co_draws (m_sim m) j) = true) /\
-    (ph = Live -> cinv cend n (m_sim m) /\
-                  forall a, In a asked -> (a < n)%nat /\ co_done cend (m_sim m) a = false).
+    (ph <> Fresh -> cinv cend n (m_sim m)) /\
+    (ph = Live -> forall a, In a asked -> (a < n)%nat /\ co_done cend (m_sim m) a = false).
 
   Lemma call_PI k ph asked m c r m' : k = MAll \/ k = MTurn ->
     hinv S k ph m -> PI ph asked m ->
@@ -877,7 +877,7 @@ Section NoErrorArm.
     end ->
     do_call S k m c = (r, m') -> PI (next_phase ph r) (live_keys r asked) m'.
   Proof.
-    intros Hk Hi (Pb & Pd & Pl) Hc E.
+    intros Hk Hi (Pb & Pd & Pc & Pl) Hc E.
     set (D := co_draws (m_sim m)) in *.
     set (Q := fun s => good s /\ co_draws s = D).
     assert (Qobs : forall s a, In a (agents S) -> Q s -> Q (snd (sim_obs S s a))).
@@ -899,24 +899,25 @@ Section NoErrorArm.
       cbn [S corridor_sim sim_reset sim_done] in Cq, Cd.
       destruct (co_reset_ok cend n (m_sim m) (admb_adm _ _ _ (Pd _))) as (R1 & R2 & _ & _ & R5 & R6 & _).
       destruct Cq as [[Hc' Hb'] Hd']; [split; [split|]; assumption|].
-      split; [exact Hb'|]. split; [intros j; rewrite Hd'; apply Pd|]. intros _. split; [exact Hc'|].
-      intros a Ha. specialize (Kin a Ha). apply agents_In in Kin. split; [exact Kin|].
+      split; [exact Hb'|]. split; [intros j; rewrite Hd'; apply Pd|]. split; [intros _; exact Hc'|].
+      intros _ a Ha. specialize (Kin a Ha). apply agents_In in Kin. split; [exact Kin|].
       rewrite Cd. apply R5.
     - destruct C as (acts & sh & -> & Cq). destruct Hc as (-> & N1 & N2 & I1 & I2).
-      destruct (Pl eq_refl) as [Hcv Hask].
+      pose proof (Pc ltac:(discriminate)) as Hcv. pose proof (Pl eq_refl) as Hask.
       cbn [S corridor_sim sim_step sim_done] in Cq.
       destruct Cq as [[[Hc' Hb'] Hd'] Dv].
       { split; [|apply co_step_draws]. apply co_step_good; [split; assumption| |].
         - destruct Hk as [-> | ->]; assumption.
         - intros a Ha. apply Hask. destruct Hk as [-> | ->]; [apply I2|apply I1]; exact Ha. }
-      split; [exact Hb'|]. split; [intros j; rewrite Hd'; apply Pd|]. intros _. split; [exact Hc'|].
-      intros a Ha. apply in_map_iff in Ha. destruct Ha as ([a' b] & <- & Hin).
+      split; [exact Hb'|]. split; [intros j; rewrite Hd'; apply Pd|].
+      split; [intros _; exact Hc'|].
+      intros _ a Ha. apply in_map_iff in Ha. destruct Ha as ([a' b] & <- & Hin).
       apply filter_In in Hin. destruct Hin as [Hin Hb]. cbn [snd fst] in *.
       apply negb_true_iff in Hb. subst b. destruct (Dv a' false Hin) as [A1 A2].
       apply agents_In in A1. split; [exact A1|]. symmetry. exact A2.
-    - subst m'. split; [exact Pb|]. split; [exact Pd|exact Pl].
-    - subst m'. split; [exact Pb|]. split; [exact Pd|exact Pl].
-    - subst m'. split; [exact Pb|]. split; [exact Pd|exact Pl].
+    - subst m'. split; [exact Pb|]. split; [exact Pd|]. split; [exact Pc|exact Pl].
+    - subst m'. split; [exact Pb|]. split; [exact Pd|]. split; [exact Pc|exact Pl].
+    - subst m'. split; [exact Pb|]. split; [exact Pd|]. split; [exact Pc|exact Pl].
   Qed.
 
   Lemma trace_PI k : k = MAll \/ k = MTurn -> forall cs m ph asked,
@@ -956,20 +957,131 @@ Section NoErrorArm.
     in_protocol (trace S k (init s0) Fresh cs) -> polite [] (trace S k (init s0) Fresh cs) ->
     forall e, In e (trace S k (init s0) Fresh cs) ->
       co_bad (m_sim (te_pre e)) = false /\ co_bad (m_sim (te_post e)) = false /\
-      (te_ph e = Live -> cinv cend n (m_sim (te_pre e))) /\
-      (next_phase (te_ph e) (te_resp e) = Live -> cinv cend n (m_sim (te_post e))) /\
+      (te_ph e <> Fresh -> cinv cend n (m_sim (te_pre e))) /\
+      (next_phase (te_ph e) (te_resp e) <> Fresh -> cinv cend n (m_sim (te_post e))) /\
       forall acts sh, te_call e = CStep acts sh ->
         forall a, In a (map fst acts) \/ In a (map fst sh) ->
           (a < n)%nat /\ co_done cend (m_sim (te_pre e)) a = false.
   Proof.
     intros Hk Hb Hd Hp Hpol e He.
-    assert (P0 : PI Fresh [] (init s0)) by (split; [exact Hb|split; [exact Hd|discriminate]]).
+    assert (P0 : PI Fresh [] (init s0)).
+    { split; [exact Hb|]. split; [exact Hd|]. split; [intros H; contradiction|discriminate]. }
     destruct (trace_PI k Hk cs (init s0) Fresh [] (hinv_init S k s0) P0 Hp Hpol e He)
-      as (asked & (B1 & _ & L1) & (B2 & _ & L2) & Hc).
-    split; [exact B1|]. split; [exact B2|]. split; [intros H; apply (L1 H)|].
-    split; [intros H; apply (L2 H)|]. intros acts sh Ec a Ha. rewrite Ec in Hc.
-    destruct Hc as (Hl & I1 & I2). destruct (L1 Hl) as [_ Hask]. apply Hask.
+      as (asked & (B1 & _ & C1 & L1) & (B2 & _ & C2 & L2) & Hc).
+    split; [exact B1|]. split; [exact B2|]. split; [exact C1|]. split; [exact C2|].
+    intros acts sh Ec a Ha. rewrite Ec in Hc.
+    destruct Hc as (Hl & I1 & I2). apply (L1 Hl).
     destruct Ha as [Ha|Ha]; [apply I1|apply I2]; exact Ha.
+  Qed.
+
+  (* ---- the snapshot clauses of checker 2502 on the model's own records ------------------------ *)
+  Lemma cells_ok_complete pos : forall arr c0,
+    (forall k x, nth_error arr k = Some (Some x) ->
+                 nth_error pos x = Some (c0 + Z.of_nat k) /\ c0 + Z.of_nat k < cend - 1) ->
+    cells_ok cend pos arr c0 = true.
+  Proof.
+    induction arr as [|o arr IH]; intros c0 H; cbn [cells_ok]; [reflexivity|].
+    assert (IH' : cells_ok cend pos arr (c0 + 1) = true).
+    { apply IH. intros k x Hk. destruct (H (Datatypes.S k) x Hk) as [H1 H2].
+      replace (c0 + 1 + Z.of_nat k) with (c0 + Z.of_nat (Datatypes.S k)) by lia. auto. }
+    destruct o as [j|]; [|exact IH'].
+    destruct (H O j eq_refl) as [H1 H2]. rewrite Z.add_0_r in H1, H2. rewrite H1, IH'.
+    rewrite Z.eqb_refl. cbn. destruct (c0 <? cend - 1) eqn:E; [reflexivity|lia].
+  Qed.
+
+  Lemma agents_ok_complete arr : forall pos j0,
+    (forall k p, nth_error pos k = Some p -> p = cend - 1 \/ acell arr p = Some (Some (j0 + k)%nat)) ->
+    agents_ok cend arr pos j0 = true.
+  Proof.
+    induction pos as [|p pos IH]; intros j0 H; cbn [agents_ok]; [reflexivity|].
+    rewrite IH.
+    - rewrite andb_true_r. destruct (H O p eq_refl) as [->|Hc]; [rewrite Z.eqb_refl; reflexivity|].
+      unfold acell in Hc. rewrite Hc. rewrite Nat.add_0_r, Nat.eqb_refl. apply orb_true_r.
+    - intros k q Hk. destruct (H (Datatypes.S k) q Hk) as [->|Hc]; [left; reflexivity|right].
+      rewrite Hc. f_equal. f_equal. lia.
+  Qed.
+
+  Lemma distinct_ok_complete pos0 : forall pos k0,
+    (forall i, nth_error pos i = nth_error pos0 (k0 + i)) ->
+    (forall i j p, nth_error pos0 i = Some p -> nth_error pos0 j = Some p -> p <> cend - 1 -> i = j) ->
+    distinct_ok cend pos = true.
+  Proof.
+    induction pos as [|p pos IH]; intros k0 Hs Hd; cbn [distinct_ok]; [reflexivity|].
+    rewrite (IH (Datatypes.S k0)); [| |exact Hd].
+    2:{ intros i. pose proof (Hs (Datatypes.S i)) as Hi. cbn [nth_error] in Hi. rewrite Hi. f_equal. lia. }
+    rewrite andb_true_r. destruct (p =? cend - 1) eqn:E; [reflexivity|]. apply Z.eqb_neq in E. cbn.
+    destruct (zmemb p pos) eqn:Em; [|reflexivity]. exfalso.
+    apply zmemb_In, In_nth_error in Em. destruct Em as [i Hi].
+    pose proof (Hs O) as H0. cbn in H0. rewrite Nat.add_0_r in H0.
+    pose proof (Hs (Datatypes.S i)) as H1. cbn in H1. rewrite Hi in H1.
+    assert (k0 = (k0 + Datatypes.S i)%nat) by (apply (Hd _ _ p); congruence). lia.
+  Qed.
+
+  Theorem snap_chk_complete s : 0 <= cend -> cinv cend n s -> snap_chk cend n (snap_of s) = 0.
+  Proof.
+    intros Hc H. pose proof H as (L1 & L2 & L3 & R & A).
+    destruct (cinv_readable cend n s H) as (_ & Dist & In1 & _ & _).
+    unfold snap_chk. cbn [snap_of sn_pos sn_arr sn_rew].
+    rewrite L1, L2, L3, !Nat.eqb_refl, Z2Nat.id, Z.eqb_refl by exact Hc. cbn [andb].
+    assert (F : forallb (fun p => (0 <=? p) && (p <=? cend - 1)) (co_pos s) = true).
+    { apply forallb_forall. intros p Hp. apply In_nth_error in Hp. destruct Hp as [i Hi].
+      specialize (R i p Hi). apply andb_true_iff. lia. }
+    rewrite F. cbn [negb].
+    rewrite cells_ok_complete.
+    2:{ intros k x Hk. rewrite Z.add_0_l. apply A. unfold acell.
+        destruct (Z.of_nat k <? 0) eqn:E; [apply Z.ltb_lt in E; lia|]. rewrite Nat2Z.id. exact Hk. }
+    rewrite agents_ok_complete.
+    2:{ intros k p Hk. destruct (Z.eq_dec p (cend - 1)) as [->|N]; [left; reflexivity|right].
+        cbn. specialize (R k p Hk). apply A. split; [exact Hk|lia]. }
+    cbn [andb negb]. rewrite (distinct_ok_complete (co_pos s) (co_pos s) O); [reflexivity|reflexivity|].
+    intros i j p Hi Hj Hp. apply (Dist i j p Hi Hj). specialize (R i p Hi). lia.
+  Qed.
+
+  (* the records of the wire entry 2501 are the trace *)
+  Lemma run_snap_trace k cs : forall m ph,
+    fst (run_snap S (fun s => s) k m cs) =
+    map (fun e => (te_resp e, snap_of (m_sim (te_post e)))) (trace S k m ph cs).
+  Proof.
+    induction cs as [|c cs IH]; intros m ph; cbn [run_snap trace]; [reflexivity|].
+    destruct (do_call S k m c) as [r m1]. specialize (IH m1 (next_phase ph r)).
+    destruct (run_snap S (fun s => s) k m1 cs) as [rs m2]. cbn [fst map te_resp te_post] in *.
+    rewrite IH. reflexivity.
+  Qed.
+
+  (* checker 2502, clauses 2511-2514: on the records of a polite in-protocol history that starts
+     with a reset no snapshot carries the flag and every snapshot passes the invariant check *)
+  Theorem corridor_chk_snapshots k s0 cs : 0 <= cend -> k = MAll \/ k = MTurn ->
+    co_bad s0 = false -> (forall j, admb cend n (co_draws s0 j) = true) -> (k = MTurn -> n <> O) ->
+    in_protocol (trace S k (init s0) Fresh (CReset :: cs)) ->
+    polite [] (trace S k (init s0) Fresh (CReset :: cs)) ->
+    forall r sn, In (r, sn) (fst (run_snap S (fun s => s) k (init s0) (CReset :: cs))) ->
+      sn_bad sn = false /\ snap_chk cend n sn = 0.
+  Proof.
+    intros Hc Hk Hb Hd Hn Hp Hpol r sn Hin.
+    rewrite (run_snap_trace k (CReset :: cs) (init s0) Fresh) in Hin.
+    apply in_map_iff in Hin. destruct Hin as (e & Ee & He). injection Ee as <- <-.
+    destruct (corridor_no_error_arm k s0 (CReset :: cs) Hk Hb Hd Hp Hpol e He) as (_ & B2 & _ & C2 & _).
+    split; [exact B2|]. apply snap_chk_complete; [exact Hc|]. apply C2.
+    (* the phase after any entry of a history that starts with a successful reset is not Fresh *)
+    clear C2 B2. cbn [trace] in He.
+    destruct (do_call S k (init s0) CReset) as [r0 m1] eqn:E0.
+    assert (Hr0 : exists obs, r0 = RObs obs).
+    { destruct Hk as [-> | ->]; cbn [do_call] in E0.
+      - destruct (all_reset_reports_learning S (init s0)) as (obs & m' & E & _). rewrite E in E0.
+        injection E0 as <- _. eauto.
+      - destruct (turn_reset_first_turn S (init s0)) as [(Eo & _)|(a0 & rest & ob & m' & _ & E & _)].
+        + exfalso. apply (corridor_order_nonempty cend n (Hn eq_refl) Eo).
+        + rewrite E in E0. injection E0 as <- _. eauto. }
+    destruct Hr0 as [obs ->]. destruct He as [<-|He]; [cbn; discriminate|].
+    cbn [next_phase] in He.
+    assert (G : forall cs' m ph, ph <> Fresh -> forall e', In e' (trace S k m ph cs') ->
+                  next_phase (te_ph e') (te_resp e') <> Fresh).
+    { induction cs' as [|c' cs' IH]; intros m ph Hph e' He'; cbn [trace] in He'; [destruct He'|].
+      destruct (do_call S k m c') as [r' m'].
+      assert (Hn' : next_phase ph r' <> Fresh).
+      { destruct r' as [?|o| | |]; cbn; try exact Hph; try discriminate. destruct (o_all o); discriminate. }
+      destruct He' as [<-|He']; [exact Hn'|]. apply (IH m' _ Hn' e' He'). }
+    apply (G cs m1 Live ltac:(discriminate) e He).
   Qed.
 End NoErrorArm.
 
